@@ -139,6 +139,7 @@ class ManualExecutor(Executor):
         self.honour_cancel_futures = honour_cancel_futures
         self.submit_delay = 0.0         # virtual time every submit() takes
         self.fail_submits = 0           # the next n submit() calls raise TypeError
+        self.precancel_next = 0         # the next n submit() calls return an already cancelled future
         self.mode = mode
         self.forget = forget            # drop fn/args/future of finished items (like real pools do)
         self.lab = label
@@ -165,7 +166,12 @@ class ManualExecutor(Executor):
         self.items.append(it)
         self.mc.emit("base.submit", b=self.lab, i=idx, fn=brief(getattr(fn, "label", None) or getattr(fn, "__name__", "fn")),
                      args=brief(args), kwargs=brief(kwargs))
-        if self.mode == "inline":
+        if self.precancel_next > 0:
+            self.precancel_next -= 1
+            Future.cancel(f)
+            f.set_running_or_notify_cancel()
+            it.state = "cancelled"
+        elif self.mode == "inline":
             self._run(it)
         return f
 
